@@ -137,11 +137,10 @@ def run_case(case):
     # 1. index expressions
     sels = []
     keys = [int(r.integers(0, n)), slice(int(r.integers(0, n)), None), slice(None, None, 2), r.random(n) < 0.5, np.sort(r.choice(n, int(r.integers(1, n + 1)), replace=False)),
-            r.integers(0, n, int(r.integers(1, 6))), -1, -int(r.integers(1, n + 1)), slice(-int(r.integers(1, n + 1)), None), 0, n - 1]
+            r.integers(0, n, int(r.integers(1, 6))), -1, -int(r.integers(1, n + 1)), slice(-int(r.integers(1, n + 1)), None), 0, n - 1,
+            np.zeros(n, dtype=bool), slice(n, None), slice(1, 1)]  # the last three select no row: names, units and metadata are still kept
     for key in keys:
         idx = [key % n] if isinstance(key, int) else np.arange(n)[key].tolist()
-        if len(idx) == 0:
-            continue
         try:
             got = table_of(s[key])
         except Exception as e:
